@@ -9,7 +9,8 @@ import KrakenModel.Model.Retry
 
   Tags and digests are numbers.  `disk` and `backend` are association lists (tag ↦ digest).
   Ghost state: `putFor` (every digest handed to store.Put for a tag), `okPut` (tags with an
-  acknowledged PUT).
+  acknowledged PUT).  `evict t` is what the cache cleanup job does to an idle tag file (production
+  default: TTI 6h): delete it unless its persist flag is set; later GETs then go to the backend.
 -/
 namespace KrakenModel.TagStore
 open KrakenModel.Retry (Key)
@@ -27,6 +28,7 @@ structure State where
   writeThrough : Bool := false
   disk : List (Tag × Digest) := []
   backend : List (Tag × Digest) := []
+  persist : List Tag := []          -- tags whose disk file carries the persist flag (not evictable)
   putFor : List (Tag × Digest) := []
   okPut : List Tag := []
   deriving DecidableEq, Repr
@@ -37,10 +39,11 @@ inductive Op where
   | retry (o : Retry.Op)
   | exec (t : Tag) (up : Bool)
   | restart
+  | evict (t : Tag)
   deriving DecidableEq, Repr
 
 inductive Out where
-  | ok | missingDep | checkErr | storageErr | digest (d : Digest) | notFound | none
+  | ok | missingDep | checkErr | storageErr | digest (d : Digest) | notFound | none | refused | absent
   deriving DecidableEq, Repr
 
 def lookup (m : List (Tag × Digest)) (t : Tag) : Option Digest :=
@@ -80,15 +83,17 @@ def internalOp : Retry.Op → Bool
   | _ => false
 
 def ins (l : List Nat) (x : Nat) : List Nat := if x ∈ l then l else l ++ [x]
+def del (l : List Nat) (x : Nat) : List Nat := l.filter (· ≠ x)
+def erase (m : List (Tag × Digest)) (t : Tag) : List (Tag × Digest) := m.filter (·.1 ≠ t)
 
 def stepO (s : State) : Op → State × Out
   | .put t d deps ups =>
     match checkDeps deps with
     | .ok =>
-      let s1 := { s with disk := writeDisk s.disk t d, putFor := s.putFor ++ [(t, d)] }
+      let s1 := { s with disk := writeDisk s.disk t d, persist := ins s.persist t, putFor := s.putFor ++ [(t, d)] }
       if s.writeThrough then
         match syncExec s1.disk t 3 ups s1.backend with
-        | (true, b') => ({ s1 with backend := b', okPut := ins s1.okPut t }, .ok)
+        | (true, b') => ({ s1 with backend := b', persist := del s1.persist t, okPut := ins s1.okPut t }, .ok)
         | (false, b') => ({ s1 with backend := b' }, .storageErr)
       else
         match Retry.stepO s1.r (.addBegin t 0) with
@@ -109,9 +114,16 @@ def stepO (s : State) : Op → State × Out
     match Retry.placeOf s.r.own t with
     | some (.running _) =>
       match runExecutor s.disk s.backend t up with
-      | (ok, b') => ({ s with r := Retry.step s.r (.finish t ok), backend := b' }, if ok then .ok else .storageErr)
+      | (ok, b') =>
+        ({ s with r := Retry.step s.r (.finish t ok), backend := b',
+                  persist := if ok then del s.persist t else s.persist }, if ok then .ok else .storageErr)
     | _ => (s, .none)
   | .restart => ({ s with r := Retry.step (Retry.step s.r .crash) (.start []) }, .none)
+  | .evict t =>
+    -- the cache cleanup job (TTI) on an idle tag file: refuses while the persist flag is set
+    match lookup s.disk t with
+    | none => (s, .absent)
+    | some _ => if t ∈ s.persist then (s, .refused) else ({ s with disk := erase s.disk t }, .ok)
 
 def step (s : State) (o : Op) : State := (stepO s o).1
 def out (s : State) (o : Op) : Out := (stepO s o).2
